@@ -76,6 +76,14 @@ def lifecycle_set_follows(ck, C):
                 aps = b2.resolve(cs.args[0])
                 ok = bool(aps) and all(r[0] == "arg" and p and p[-1] == ".inner" and "RegistrationToken" in f.types[f.peel_refs(b2.local_ty(r[1]))]["s"] for r, p in aps)
             ck.verdict(ok, C, "T6-provenance", b2, "RegistrationToken::new(sub-id-free)", "registration tokens are built from a token whose sub-id was cleared", "a RegistrationToken is built from a token that still carries a sub-id: the lifecycle set compares whole tokens, so an entry registered under sub-id 0 is not removed (a disabled/removed multi-token source keeps receiving its hooks; unreachable!() after removal)", site=b2.where(cs.bb))
+    # an entry leaves the set only when the source is unregistered: a (re)registration that fails - the source is already
+    # enabled and the poller answers EEXIST, an update() is refused - leaves an enabled source enabled, hooks included
+    for q_ in ("<RefCell<DispatcherInner> as EventDispatcher>::register", "<RefCell<DispatcherInner> as EventDispatcher>::reregister"):
+        b_ = ck.opt_body(q_)
+        if b_ is None:
+            continue
+        rm = [c for v_ in [b_] + ([f.deep_view(b_, lambda cb_: True)] if hasattr(f, "deep_view") else []) for c in set_calls(v_, "unregister")] + [c for c in T.calls(b_, name=("retain", "remove", "swap_remove", "clear", "truncate", "pop")) if T.path_has(b_, c.args[0], ".values")]
+        ck.verdict(not rm, C, "T7-who-may-call", b_, "set-removal-only-in-unregister", "%s never removes an entry from the lifecycle set" % q_.rsplit("::", 1)[1], "%s removes the source's entry from the lifecycle set (on a failed %s): an enabled source whose redundant enable() / refused update() fails stays registered but silently loses its before_sleep / before_handle_events hooks" % (q_, q_.rsplit("::", 1)[1]), site=b_.where(rm[0].bb) if rm else b_.where())
     # adds after success must be on the success edge only (T3, edge specific)
     dunreg = ck.body(C, "<RefCell<DispatcherInner> as EventDispatcher>::unregister")
     tb = T.calls(dunreg, name=("try_borrow_mut", "borrow_mut"), path="RefCell")
@@ -349,3 +357,10 @@ def run(ck):
             exh += n_
         for i, j, st in nones:
             ck.verdict(bool(exh) and T.reachable_only_via(nx, i, exh), "5", "T4-guarded-by", nx, "None-only-when-exhausted", "next() returns None only on the edge where the underlying iterator returned None", "EventIterator::next can return None before the underlying iterator is exhausted: later events of the same source (the batch is not grouped by source) are missing from what before_handle_events sees", site=nx.where(i))
+    # ---- shared clauses demonstrated by seeding round 7 (the property broken from a distant module) --------------
+    from props import common as _c7
+    import importlib as _il
+    _m = lambda n: _il.import_module('props.' + n)
+    _c7.import_results(ck, _m("C20"), "4", "increment_version", "2")
+    _c7.import_results(ck, _m("C01"), "4", None, "2")
+
